@@ -47,6 +47,11 @@ def monitor_models(rep, pid, n, ndates=4, opts=None, mode="exact", known=None):
             # every fourth model: parameters changed through apply_overrides between building and running
             o["overrides"] = True
             stats["with_overrides"] = stats.get("with_overrides", 0) + 1
+        if pid in ("C05", "C06") and i % 5 == 1:
+            # parallel arcs between the same pair of nodes (main and relief pipes, two intakes): capacities hold per arc,
+            # nothing recorded is negative
+            o["parallel"] = 0.3
+            stats["with_parallel_arcs"] = stats.get("with_parallel_arcs", 0) + 1
         two_calls = pid in ("C02", "C03") and i % 4 == 1 and ndates >= 4
         if two_calls:
             o["arc_mix"] = 0.5          # (travel-time arcs: water under way at the boundary between the two calls)
